@@ -169,8 +169,8 @@ func (fs *Filespace) Writer(destPath string) (writer filesystem.Writer, err erro
 		return nil, err
 	}
 	dir.Lock()
-	defer dir.Unlock()
 	if node, err = dir.getNode(destNodeName); err != nil {
+		defer dir.Unlock()
 		verifhook.Yield("memfs.create.gap")
 		file = NewFile(destNodeName, filesystem.DefaultUnixFileMode, time.Now(), []byte{})
 		// hold the data lock before the node becomes visible: nobody may read the
@@ -183,6 +183,9 @@ func (fs *Filespace) Writer(destPath string) (writer filesystem.Writer, err erro
 		verifhook.Yield("memfs.writer.created")
 		return handler, nil
 	}
+	// the node exists: do not wait for its data lock with the directory locked (the holder of
+	// an open handle on this file may be about to create a node in the same directory)
+	dir.Unlock()
 	if file, ok = node.(*File); !ok {
 		return nil, goaterr.Errorf("Node %s must be a file", destPath)
 	}
@@ -231,13 +234,16 @@ func (fs *Filespace) WriteFile(destPath string, data []byte, filemode os.FileMod
 		return err
 	}
 	dir.Lock()
-	defer dir.Unlock()
 	if node, err = dir.getNode(destNodeName); err != nil {
+		defer dir.Unlock()
 		verifhook.Yield("memfs.create.gap")
 		file = NewFile(destNodeName, filesystem.DefaultUnixFileMode, time.Now(), nil)
 		file.setData(data)
 		return dir.addNode(file)
 	}
+	// the node exists: do not wait for its data lock with the directory locked (the holder of
+	// an open handle on this file may be about to create a node in the same directory)
+	dir.Unlock()
 	if file, ok = node.(*File); !ok {
 		return goaterr.Errorf("Node %s must be a file", destPath)
 	}
